@@ -28,7 +28,7 @@ L = {
          'Correspondence: model parser = PLY automaton on all short token strings + random texts + cached sessions.', 'findings D7, D8.'),
  'C07': ('Reference semantics: Sq/Denote.lean defines evalOp compositionally (independent of the machine); machine_implements_semantics / '
          'eval_call_implements_semantics (SqLemmas/DenoteSound.lean) prove the abstract machine computes exactly that outcome and world for every node, '
-         'function application and whole eval call; semantics_covers_machine / semantics_iff_machine (DenoteComplete: the converse, by strong induction on machine steps) — semantics and machine define the same relation (eval_call_iff_semantics: the machine halts with done v / failed e in world w iff evalOp prescribes it); fuel monotone and irrelevant. Plus characteristics theorems, ops_equal_node_evaluations, frame lemma, '
+         'function application and whole eval call; semantics_covers_machine / semantics_iff_machine (DenoteComplete: the converse, by strong induction on machine steps) — semantics and machine define the same relation (eval_call_iff_semantics_with_ast_names: the machine halts with done v / failed e in world w iff the semantics prescribes it, for every way eval starts an evaluation); fuel monotone and irrelevant. Plus characteristics theorems, ops_equal_node_evaluations, frame lemma, '
          'big-step theorems. Decision: correspondence of type-directed programs with the model reading the source text itself; the driver cross-checks '
          'evalOp against the machine on every EVAL line (denote counters).', 'translation-validation style.'),
  'C08': ('Theorems: literal_exact, add/sub/mul exact-then-rounded-once, fix_rounds_to_nearest (nearest, ties to even, whole domain), '
